@@ -92,6 +92,15 @@ CHECKS["C07"] = dict(
     note="Bounded sequences over a pool of well separated points; returned gradients attributed to points within 0.5.",
     design="4 (C07)")
 
+CHECKS["C08"] = dict(
+    text="NormCons.tla: the row normalisation (index, rhs, flip, equality) is model-checked against configured feasibility for every "
+         "combination of constraint kinds; the arguments the plug-in hands to minimize / differential_evolution are captured by the "
+         "scripted client for every kind combination x method x mask x options x max_iterations, evaluated on an integer grid and judged "
+         "by Trace_C08: feasibility equivalence in both directions, bounds object on free variables only, Jacobian = finite difference "
+         "of the value, iteration limit forwarded, nothing dropped.",
+    note="Affine integer constraints; 4x4 grid of test points; known finding: max_iterations dropped when options is None.",
+    design="4 (C08)")
+
 NOT_APPLICABLE = {}
 
 def main():
